@@ -224,6 +224,7 @@ const (
 	ItDef
 	ItAssume
 	ItRaw // raw SMT-LIB text (prelude declarations, axioms)
+	ItForget // assumptions in Items[From:here) are dropped for every obligation after this point (declarations and definitions stay)
 )
 
 type Item struct {
@@ -232,6 +233,7 @@ type Item struct {
 	Sort Sort
 	Body string
 	Note string
+	From int // ItForget: start of the forgotten region
 }
 
 type Script struct {
@@ -241,6 +243,7 @@ type Script struct {
 	persistent map[string]bool
 	defPos     map[string]int
 	assumed    map[string]int
+	isDef      map[string]bool // names introduced by Def (define-fun macros)
 }
 
 func NewScript() *Script {
@@ -301,8 +304,32 @@ func (s *Script) Def(hint string, t Term) Term {
 	}
 	name := s.fresh(hint)
 	s.defPos[name] = len(s.Items)
+	if s.isDef == nil {
+		s.isDef = map[string]bool{}
+	}
+	s.isDef[name] = true
 	s.Items = append(s.Items, Item{Kind: ItDef, Name: name, Sort: t.Sort, Body: t.S})
 	return Term{name, t.Sort}
+}
+
+// Forget marks the assumptions made since position from as dropped for
+// everything that follows.
+func (s *Script) Forget(from int) {
+	s.Items = append(s.Items, Item{Kind: ItForget, From: from})
+	s.assumed = map[string]int{}
+}
+
+// Atom returns t if it is a literal or a declared constant; otherwise a fresh
+// declared constant constrained to equal t. Solvers expand define-fun macros
+// and normalise arithmetic, so (+ off e) with a compound or macro-defined e is
+// no longer an instance of the trigger (+ off k); with an atom it is.
+func (s *Script) Atom(hint string, t Term) Term {
+	if !strings.ContainsAny(t.S, " (") && !s.isDef[t.S] {
+		return t
+	}
+	c := s.Decl(hint, t.Sort)
+	s.Items = append(s.Items, Item{Kind: ItAssume, Body: "(= " + c.S + " " + t.S + ")", Note: "index term kept atomic for trigger matching"})
+	return c
 }
 
 func (s *Script) Assume(t Term, note string) {
@@ -330,7 +357,24 @@ func (s *Script) Pos() int { return len(s.Items) }
 func (s *Script) Render(prelude string, pos int, goal Term, getValues []string) string {
 	var sb strings.Builder
 	sb.WriteString(prelude)
-	all := append(append([]Item{}, s.Pre...), s.Items[:pos]...)
+	// dropping assumptions is always sound; a forget marker keeps the context
+	// of later obligations small
+	dropped := map[int]bool{}
+	for i := 0; i < pos && i < len(s.Items); i++ {
+		if s.Items[i].Kind == ItForget {
+			for j := s.Items[i].From; j < i; j++ {
+				if s.Items[j].Kind == ItAssume {
+					dropped[j] = true
+				}
+			}
+		}
+	}
+	all := append([]Item{}, s.Pre...)
+	for i := 0; i < pos; i++ {
+		if !dropped[i] {
+			all = append(all, s.Items[i])
+		}
+	}
 	for _, it := range all {
 		switch it.Kind {
 		case ItDecl:
